@@ -18,6 +18,13 @@ THEOREMS = [
     "C15.index_consistent",
     "C15.version_strictly_increases",
     "C15.statistics_consistent",
+    # the remaining public surface that shows the stored rules (reach audit): Clone, export_to_grl, get_rules_snapshot
+    "C15.clone_same_listing_lookups",        # kb.clone(): same listing, same lookups, exact index, version = number of rules
+    "C15.clone_histories_meet_spec",         # histories that continue on a clone at arbitrary points satisfy xrunOk (the oracle)
+    "C15.clone_histories_refine",
+    "C15.clone_independent",                 # a call on the clone / the original changes no observation of the other one
+    "C15.fork_keeps_original",
+    "C15.twins_show_listing",                # get_rules_snapshot / export_to_grl show the specification's listing, version, count
     # schedules: over the lock table regenerated from the source text on every run
     "C15.locks_ordered",
     "C15.mutators_take_write_first",
@@ -58,7 +65,14 @@ RULE = ("cases = corpus + EXHAUSTIVE mutator sequences (add/remove/enable/disabl
         "in non-monotone insertion order with removals, toggles, rejected duplicates and re-adds (insertion order among equals must "
         "survive sorts of more than 20 elements). Thorough: <=6 over 4 x 3 (11,949,396 canonical = 254,313,150 plain) and <=8 over 2 names x 2 saliences "
         "with add/remove/clear (3.4M). Plus N random histories of length 1..14 with a snapshot after every call "
-        "and N/8 concurrent histories of 3 threads x 4 calls (mutators and observers, invocation/response stamps from one atomic "
+        "N/10 bulk loads (add_rules_from_grl after a random pre-history); forks: every mutator sequence of length <=3 over 2 names x 2 "
+        "saliences with a fork (`spare = kb; kb = kb.clone()`, both stay alive) inserted at a random position, continued on the clone "
+        "resp. on the original, with a look at the other one at the end (`z` exchanges the two); N/10 random histories with several "
+        "forks and exchanges; forks of >20 stored rules inside the large histories (model cloneKB = re-adding into a new state, "
+        "two independent states; specification Spec.clone); every "
+        "snapshot also reads export_to_grl back (header name/version/count + rule blocks = the get_rules listing) and compares "
+        "get_rules_snapshot with get_rules; "
+        "and N/8 concurrent histories of 3 threads x 4 calls (mutators and observers incl. get_rules_snapshot, export_to_grl and clone, invocation/response stamps from one atomic "
         "counter, cfg-guarded yield points between lock acquisitions) checked for linearizability against the sequential model by "
         "exhaustive search over linearizations. Each sequential case is run on KnowledgeBase (real code) and on the Lean model, the "
         "observations are diffed, and Spec.runOk (abstract insertion-ordered-list specification) is evaluated on the implementation's "
@@ -198,7 +212,10 @@ def _block(s, open_idx):
 
 
 def extract_lock_table(path):
-    """-> (lock field names in declaration order, [(method, [(rank, mode, to_end)], early_release, composite)])"""
+    """-> (lock field names in declaration order, [(method, [(rank, mode, to_end)], early_release, composite)],
+           {method: why its row could not be extracted})
+    A method whose body is not understood (or that calls such a method) loses ITS row only — the rows of the other
+    methods are still regenerated from the current text; what is wrong with the struct / impl blocks as a whole raises."""
     s = _strip(open(path).read())
     m = re.search(r"\bstruct\s+KnowledgeBase\s*\{", s)
     if not m:
@@ -237,7 +254,9 @@ def extract_lock_table(path):
 
     lockre = "|".join(re.escape(f) for f in locks)
     direct = {}
-    for name, b in bodies.items():
+    errors = {}
+
+    def analyse(name, b):
         # every textual mention of a lock field must be a recognised acquisition
         events = []   # (offset, kind, payload)
         for mm in re.finditer(r"\bself\s*\.\s*(%s)\b(?!\s*\()" % lockre, b):
@@ -275,6 +294,12 @@ def extract_lock_table(path):
         events.sort()
         direct[name] = (events, early)
 
+    for name, b in bodies.items():
+        try:
+            analyse(name, b)
+        except ExtractError as e:
+            errors[name] = str(e)
+
     resolved = {}
 
     def resolve(name, stack):
@@ -282,6 +307,8 @@ def extract_lock_table(path):
             return resolved[name]
         if name in stack:
             raise ExtractError("recursive methods: " + " -> ".join(stack + [name]))
+        if name in errors:
+            raise ExtractError(f"calls self.{name}(), whose row could not be extracted")
         events, early = direct[name]
         acqs = []
         if events and all(k == "call" for _, k, _ in events):
@@ -305,9 +332,15 @@ def extract_lock_table(path):
 
     table = []
     for name in bodies:
-        acqs, early, comp = resolve(name, [])
+        if name in errors:
+            continue
+        try:
+            acqs, early, comp = resolve(name, [])
+        except ExtractError as e:
+            errors[name] = "fn %s: %s" % (name, e)
+            continue
         table.append((name, acqs, early, comp))
-    return locks, table
+    return locks, table, errors
 
 
 def render_lock_table(locks, table, src_path):
@@ -349,6 +382,9 @@ NEED = {
     "get_rule_by_index": [(0, "read")],
     "version": [(2, "read")],
     "get_statistics": [(0, "read"), (2, "read")],
+    # Lin.aliases: methods with the footprint of a modelled one
+    "clone": [(0, "read")],
+    "export_to_grl": [(0, "read"), (2, "read")],
 }
 
 
@@ -358,13 +394,23 @@ def pre_lean(ctx):
     root = os.path.dirname(os.path.dirname(os.path.abspath(__file__)))
     dst = os.path.join(root, "lean", "RreModel", "C15", "Generated", "KbLocks.lean")
     try:
-        locks, table = extract_lock_table(src)
+        locks, table, row_errors = extract_lock_table(src)
         text = render_lock_table(locks, table, src)
         if not os.path.exists(dst) or open(dst).read() != text:
             os.makedirs(os.path.dirname(dst), exist_ok=True)
             open(dst, "w").write(text)
         ctx.notes.append("lock table regenerated from %s: %d methods, locks %s" % (src, len(table), "<".join(locks)))
         ctx.lock_table = (locks, table)
+        # a method whose body the translator does not understand has no row: the other rows are current, and the
+        # theorems that name the method (table_covers_api, table_footprints_ok) will not check — said here in words
+        for name, why in row_errors.items():
+            ctx.broken.append(("lock-row-extraction",
+                               "props/c15.py could not extract the lock acquisition row of one method from %s: %s. "
+                               "The regenerated table has no row for it (the rows of the other %d methods are current); "
+                               "the schedule theorems do not cover this method%s." % (
+                                   src, why, len(table),
+                                   " and C15.table_covers_api / C15.table_footprints_ok name it, so they no longer check"
+                                   if name in NEED or name in ("get_rules_snapshot",) else "")))
         # readable diagnosis of what the `decide` theorems over the table will reject (the Lean build is the judge)
         for name, acqs, early, comp in table:
             shown = ", ".join("%s.%s%s" % (locks[r], m, "" if t else "(temp)") for r, m, t in acqs)
